@@ -97,7 +97,7 @@ func C04(c *Ctx) {
 		"(A3) pairing with one coin origin: in the mint route Mint(c) ≺ SendModuleToAccount(enterprise→r, c) ≺ Delegate(r→enterprise, c) ≺ locked[r]+=c & total+=c on every success path (the only other success path is the zero-amount early return); in the unlock route every Undelegate(X) is followed on all success paths by locked-=a and spent+=a with a = X or its fee-denom projection; the increment/decrement helpers write both the per-account and the total counter; " +
 		"(A8) no bank error is dropped on those routes; (A5) BlockedAddresses() is built from all maccPerms keys, deletes only non-escrow accounts and is what the bank keeper receives; (A2) genesis import returns normally only when the escrow balance equals TotalLocked. " +
 		"Structural necessary conditions on every path; the numeric Σ-invariants themselves are not decided."
-	r.Rules = []string{"A1.book-writers", "A1.escrow-moves", "A3.mint-route-pairing", "A3.unlock-pairing", "A3.counter-pairs", "A8.bank-errors", "A5.blocked-addresses", "A2.genesis-balance", "A3.lost-update", "A3.stale-element-pointer", "A3.element-carry", "A3.no-stale-writeback", "A7.export-complete", "A7.export-fields"}
+	r.Rules = []string{"A1.book-writers", "A1.escrow-moves", "A3.mint-route-pairing", "A3.unlock-pairing", "A3.counter-pairs", "A8.bank-errors", "A5.blocked-addresses", "A2.genesis-balance", "A3.lost-update", "A3.stale-element-pointer", "A3.element-carry", "A3.no-stale-writeback", "A7.export-complete", "A7.export-fields", "A3.completion-pairing", "A3.tally-pairing", "A3.one-block-delay", "A7.derived-queues", "A7.import-fields", "TS.status-transition"}
 	lostUpdateControl(c)
 	r.Floor("functions of enterprise scanned for dropped updates to record copies", lostUpdates(c, "enterprise"), 40)
 	r.Trusted = []string{"bank DelegateCoinsFromAccountToModule / UndelegateCoinsFromModuleToAccount move exactly the given coins or fail", "bank refuses transfers to blocked addresses"}
@@ -135,6 +135,9 @@ func C04(c *Ctx) {
 	blockedAddresses(c, []string{"enterprise", "stream"})
 	// the books balance across a restart as well: the export lists every per-account record the totals were built from
 	exportComplete(c, "enterprise")
+	// "locked plus spent equals the sum of its completed purchase orders": every completed order is minted and locked exactly once
+	blockerOrdering(c)
+	statusTypestate(c)
 	exportSections(c) // each exported list is the whole section it stands for (no per-record selection on the way out)
 	genesisBalance(c, "enterprise")
 }
